@@ -249,7 +249,12 @@ func writeIfChanged(path, content string) {
 func main() {
 	repo := flag.String("repo", "/repo", "repository root")
 	out := flag.String("out", "", "directory for generated Lean files (…/lean/Knx/Gen)")
+	debug := flag.Bool("dptdebug", false, "print normalised DPT method bodies")
 	flag.Parse()
+	if *debug {
+		genDptDebug(load(filepath.Join(*repo, "knx", "dpt")))
+		return
+	}
 	if *out == "" {
 		fatal(fmt.Errorf("need -out"))
 	}
